@@ -16,6 +16,8 @@
 -/
 import RoModel.DriverCore
 import RoModel.Multi.OpsA
+import RoModel.Spec.Multi
+import RoModel.Multi.Micro
 namespace Ro.Driver.Drivers.Multi
 open Ro Ro.Driver Ro.Multi
 
@@ -45,14 +47,18 @@ def listNats (l : List Nat) : String := if l.isEmpty then "-" else ",".intercala
 
 /-- `off` = model index of probe 0 (1 for the Merge family, whose source 0 is `Just(...)`) -/
 def report {σ : Type} (id : String) (m : MMachine σ Int Int) (cfg : Sources Int) (sub : Ctx) (order : List Nat)
-    (cut : Option Nat) (off nProbes : Nat) (assumed : Nat → Ctx) : String :=
+    (cut : Option Nat) (off nProbes : Nat) (assumed : Nat → Ctx) (wantSpec : Bool) (spec : List (MEvent Int) → List (Notif Int)) : String :=
   let (r, steps) := runSteps m cfg sub (order.map (· + off)) cut
   let ks := (List.range nProbes).map (· + off)
   if r.overflow then s!"res {id} unsupported-depth"
   else if ks.any (fun k => r.subs k > 0 && r.sctx k != assumed k) then s!"res {id} bad-subctx-assumption"
   else
     let sctx := ",".intercalate (ks.map (fun k => if r.subs k = 0 then "x" else renderCtx (r.sctx k)))
-    s!"res {id} trace={renderTrace r.out} drops={renderMDrops r.drops} steps={listNats steps} subs={listNats (ks.map r.subs)} rel={listNats (ks.map r.rel)} sctx={sctx}"
+    -- the definition's output for this arrival order (all probes hot, no external cut): Spec.* of RoModel/Spec/Multi.lean
+    let allHot := ks.all (fun k => !cfg.sync k)
+    -- printed only on request (`want=spec`), so that the two result streams of the correspondence are identical
+    let specS := if !wantSpec then "" else if allHot && cut.isNone then " spec=" ++ renderTrace (spec (eventsOf cfg (order.map (· + off)))) else " spec=n/a"
+    s!"res {id} trace={renderTrace r.out} drops={renderMDrops r.drops} steps={listNats steps} subs={listNats (ks.map r.subs)} rel={listNats (ks.map r.rel)} sctx={sctx}{specS}"
 
 def splitScripts (s : String) : List String := if s == "-" || s == "" then [] else s.splitOn ";"
 
@@ -79,13 +85,15 @@ def run (c : Case) : String :=
   let syncs := (parseInts (c.getD "sync" "-")).map (· != 0)
   let order := (parseInts (c.getD "order" "-")).map Int.toNat
   let cut := (c.get "cut").bind String.toNat?
+  let ws := c.getD "want" "-" == "spec"
   let plain := raws.mapM (parseScript sub)
   match plain with
   | none => s!"res {c.id} bad-script"
   | some scripts =>
     if op == "Merge" || op == "MergeWith" || op == "MergeWithN" || op == "MergeAll" then
       let cfg := Sources.ofLists (justScript sub n :: scripts) (true :: syncs)
-      report c.id mergeM cfg sub order cut 1 n (fun _ => sub)
+      report c.id mergeM cfg sub order cut 1 n (fun _ => sub) ws
+        (fun evs => Spec.merge sub n (Spec.gateEvents (Spec.restrict (fun k => decide (1 ≤ k ∧ k ≤ n)) evs)))
     else if op == "MergeMap" then
       match scripts with
       | [] => s!"res {c.id} unsupported"
@@ -97,17 +105,29 @@ def run (c : Case) : String :=
           match (raws.zipIdx.mapM (fun p => parseScript (base p.2) p.1)) with
           | none => s!"res {c.id} bad-script"
           | some scripts' =>
-            report c.id (mergeAllM mergeMapProj) (Sources.ofLists scripts' syncs) sub order cut 0 n base
+            report c.id (mergeAllM mergeMapProj) (Sources.ofLists scripts' syncs) sub order cut 0 n base ws
+              (fun evs => Spec.mergeAll 1 Ctx.nil (Spec.heard mergeMapProj (fun k => k == 0) (fun _ => false) 0 evs))
     else if op == "Race" || op == "RaceWith" || op == "Amb" then
       if n < 2 then s!"res {c.id} unsupported"
-      else report c.id (raceM n) (Sources.ofLists scripts syncs) sub order cut 0 n (fun _ => sub)
+      else report c.id (raceM n) (Sources.ofLists scripts syncs) sub order cut 0 n (fun _ => sub) ws
+        (fun evs => Spec.race (Spec.restrict (fun k => decide (k < n)) evs))
     else if n != 2 then s!"res {c.id} unsupported"
     else
       let cfg := Sources.ofLists scripts syncs
-      if op == "TakeUntil" then report c.id takeUntilM cfg sub order cut 0 n (fun _ => sub)
-      else if op == "SkipUntil" then report c.id skipUntilM cfg sub order cut 0 n (fun _ => sub)
-      else if op == "SampleWhen" then report c.id sampleWhenM cfg sub order cut 0 n (fun _ => sub)
-      else if op == "ThrottleWhen" then report c.id throttleWhenM cfg sub order cut 0 n (fun _ => sub)
+      let heard2 := fun (evs : List (MEvent Int)) => Spec.gateEvents (Spec.restrict (fun k => decide (k < 2)) evs)
+      if op == "TakeUntil" then report c.id takeUntilM cfg sub order cut 0 n (fun _ => sub) ws (fun evs => Spec.takeUntil true (heard2 evs))
+      else if op == "SkipUntil" then report c.id skipUntilM cfg sub order cut 0 n (fun _ => sub) ws (fun evs => Spec.skipUntil true false (heard2 evs))
+      else if op == "SampleWhen" then report c.id sampleWhenM cfg sub order cut 0 n (fun _ => sub) ws (fun evs => Spec.sampleWhen none (heard2 evs))
+      else if op == "ThrottleWhen" then report c.id throttleWhenM cfg sub order cut 0 n (fun _ => sub) ws (fun evs => Spec.throttleWhen false (heard2 evs))
       else s!"res {c.id} unsupported"
+
+/-- `kind=multimicro` / `kind=multipark`: TakeUntil under a schedule of atomic actions (RoModel/Multi/Micro.lean):
+    `sched` entry 0 = the source thread handles its next notification, 1 = the signal thread's next micro-step -/
+def runMicro (c : Case) : String :=
+  let sub := parseCtx (c.getD "sub" "-")
+  let sched := (parseInts (c.getD "sched" "-")).map Int.toNat
+  match (splitScripts (c.getD "srcs" "-")).mapM (parseScript sub), c.getD "op" "?" with
+  | some [source, signal], "TakeUntil" => s!"res {c.id} trace={renderTrace (Micro.takeUntilMicro source signal sched)}"
+  | _, _ => s!"res {c.id} unsupported"
 
 end Ro.Driver.Drivers.Multi
